@@ -12,6 +12,7 @@
 package main
 
 import (
+	"bufio"
 	"context"
 	"encoding/base64"
 	"encoding/json"
@@ -20,15 +21,20 @@ import (
 	"fmt"
 	"io"
 	"math/rand"
+	"net"
 	"net/http"
 	"net/http/httptest"
 	"os"
 	"sort"
 	"strconv"
 	"strings"
+	"sync"
+	"time"
 
 	"github.com/gorilla/mux"
 	clconfig "github.com/metrico/cloki-config"
+	_ "github.com/metrico/qryn/ctrl"
+	_ "github.com/metrico/qryn/reader"
 	rconfig "github.com/metrico/qryn/reader/config"
 	rmodel "github.com/metrico/qryn/reader/model"
 	rrouter "github.com/metrico/qryn/reader/router"
@@ -36,6 +42,7 @@ import (
 	"github.com/metrico/qryn/reader/utils/middleware"
 	"github.com/metrico/qryn/shared/commonroutes"
 	"github.com/metrico/qryn/view"
+	_ "github.com/metrico/qryn/writer"
 	wconfig "github.com/metrico/qryn/writer/config"
 	wctrl "github.com/metrico/qryn/writer/controller"
 	wplugin "github.com/metrico/qryn/writer/plugin"
@@ -146,6 +153,12 @@ type Config struct {
 	// value given to condition atoms the harness cannot relate to the configuration (they are not under its
 	// control in the real main() either); one extra configuration sets them all to true
 	Unknown bool `json:"unknown"`
+	// reader.ownHttpServer: true only when reader.Init is handed a nil router, which main() never does; the valuation is
+	// interpreted anyway (the theorem covers it)
+	OwnHTTP bool `json:"own_http"`
+	// rich: the full request product; enum: one of the enumerated valuations (walk + a reduced request set);
+	// open: login and password are not both configured (the property's premise is not met: model = router only)
+	Tier string `json:"tier"`
 }
 
 func envOf(a *Assembly, c Config) ([]bool, []string) {
@@ -162,7 +175,7 @@ func envOf(a *Assembly, c Config) ([]bool, []string) {
 		case strings.HasPrefix(at.Kind, "mode_eq:"):
 			env[at.ID] = c.Mode == strings.TrimPrefix(at.Kind, "mode_eq:")
 		case at.Kind == "var:reader.ownHttpServer":
-			env[at.ID] = false // set only when reader.Init is handed a nil router; main hands it the router
+			env[at.ID] = c.OwnHTTP // set only when reader.Init is handed a nil router; main hands it the router
 		case at.Kind == "var:view.HaveStatic":
 			env[at.ID] = view.HaveStatic
 		default:
@@ -325,11 +338,13 @@ func credArg(src string, c Config) string {
 
 // ---------------------------------------------------------------- instrumentation
 type record struct {
-	ran  int
-	tpls []string
+	ran      int
+	tpls     []string
+	hijacked bool
 }
 
 var cur *record
+var curMu sync.Mutex
 
 func instrument(root *mux.Router) []RouteDesc {
 	var walked []RouteDesc
@@ -344,12 +359,37 @@ func instrument(root *mux.Router) []RouteDesc {
 		walked = append(walked, d)
 		orig := h
 		route.Handler(http.HandlerFunc(func(w http.ResponseWriter, r *http.Request) {
+			curMu.Lock()
 			if cur != nil {
 				cur.ran++
 				cur.tpls = append(cur.tpls, tpl)
 			}
+			curMu.Unlock()
 			if r.Header.Get("X-Verif-Exec") == "1" {
 				orig.ServeHTTP(w, r)
+				return
+			}
+			if r.Header.Get("X-Verif-Hijack") == "1" {
+				// what websocket.Upgrader.Upgrade does: take the connection over through whatever wrappers the
+				// middlewares put around the ResponseWriter, and answer 101 on the raw connection
+				hj, ok := w.(http.Hijacker)
+				if !ok {
+					w.WriteHeader(500)
+					return
+				}
+				conn, rw, err := hj.Hijack()
+				if err != nil {
+					w.WriteHeader(500)
+					return
+				}
+				curMu.Lock()
+				if cur != nil {
+					cur.hijacked = true
+				}
+				curMu.Unlock()
+				rw.WriteString("HTTP/1.1 101 Switching Protocols\r\nUpgrade: websocket\r\nConnection: Upgrade\r\n\r\n")
+				rw.Flush()
+				conn.Close()
 				return
 			}
 			st, _ := strconv.Atoi(r.Header.Get("X-Verif-Status"))
@@ -376,6 +416,12 @@ type Req struct {
 	Origin bool   `json:"origin"`
 	HStatus int   `json:"hstatus"`
 	Exec   bool   `json:"exec,omitempty"`
+	// CORS pre-flight headers: Origin, Access-Control-Request-Method: <this>, Access-Control-Request-Headers: authorization
+	Preflight string `json:"preflight,omitempty"`
+	// websocket handshake (Connection: Upgrade, Upgrade: websocket, Sec-WebSocket-Key/Version) sent over a real TCP
+	// connection to an httptest.Server; the instrumented handler hijacks the connection and answers 101 itself
+	Upgrade bool `json:"upgrade,omitempty"`
+	Query   string `json:"query,omitempty"` // raw query string (exec controls only)
 }
 type Obs struct {
 	Status  int    `json:"status"`
@@ -385,6 +431,7 @@ type Obs struct {
 	Gzip    bool   `json:"gzip"`
 	Cors    bool   `json:"cors"`
 	Panic   string `json:"panic,omitempty"`
+	Hijacked bool  `json:"hijacked,omitempty"` // the (instrumented) handler took over the connection
 }
 type Case struct {
 	Kind  string `json:"kind"`
@@ -398,29 +445,106 @@ type Case struct {
 }
 
 func do(root *mux.Router, q Req) Obs {
-	req := httptest.NewRequest(q.Method, "http://qryn.test"+q.Path, strings.NewReader("{}"))
+	if q.Upgrade {
+		return doServer(root, q)
+	}
+	url := "http://qryn.test" + q.Path
+	if q.Query != "" {
+		url += "?" + q.Query
+	}
+	req := httptest.NewRequest(q.Method, url, strings.NewReader("{}"))
 	if q.HasAuth {
 		req.Header["Authorization"] = []string{hx.UnHex(q.Auth)}
 	}
 	if q.Gzip {
 		req.Header.Set("Accept-Encoding", "gzip")
 	}
-	if q.Origin {
+	if q.Origin || q.Preflight != "" {
 		req.Header.Set("Origin", "http://elsewhere.example")
+	}
+	if q.Preflight != "" {
+		req.Header.Set("Access-Control-Request-Method", q.Preflight)
+		req.Header.Set("Access-Control-Request-Headers", "authorization")
 	}
 	req.Header.Set("X-Verif-Status", strconv.Itoa(q.HStatus))
 	if q.Exec {
 		req.Header.Set("X-Verif-Exec", "1")
 	}
 	rec := httptest.NewRecorder()
+	curMu.Lock()
 	cur = &record{}
 	backendCalls = 0
+	curMu.Unlock()
 	p := hx.Catch(func() { root.ServeHTTP(rec, req) })
+	curMu.Lock()
 	o := Obs{Status: rec.Code, Ran: cur.ran, Backend: backendCalls, Panic: p,
 		WWW:  rec.Header().Get("WWW-Authenticate") != "",
 		Gzip: rec.Header().Get("Content-Encoding") == "gzip",
 		Cors: rec.Header().Get("Access-Control-Allow-Origin") != ""}
 	cur = nil
+	curMu.Unlock()
+	return o
+}
+
+// a websocket handshake over a real connection (so that the ResponseWriter is hijackable, as under net/http)
+func doServer(root *mux.Router, q Req) Obs {
+	curMu.Lock()
+	cur = &record{}
+	backendCalls = 0
+	curMu.Unlock()
+	srv := httptest.NewServer(root)
+	var o Obs
+	func() {
+		conn, err := net.Dial("tcp", srv.Listener.Addr().String())
+		if err != nil {
+			o.Panic = "dial: " + err.Error()
+			return
+		}
+		defer conn.Close()
+		conn.SetDeadline(time.Now().Add(5 * time.Second))
+		var b strings.Builder
+		path := q.Path
+		if q.Query != "" {
+			path += "?" + q.Query
+		}
+		fmt.Fprintf(&b, "%s %s HTTP/1.1\r\nHost: qryn.test\r\n", q.Method, path)
+		if q.HasAuth {
+			fmt.Fprintf(&b, "Authorization: %s\r\n", hx.UnHex(q.Auth))
+		}
+		b.WriteString("Connection: Upgrade\r\nUpgrade: websocket\r\nSec-WebSocket-Version: 13\r\nSec-WebSocket-Key: dGhlIHNhbXBsZSBub25jZQ==\r\n")
+		if q.Gzip {
+			b.WriteString("Accept-Encoding: gzip\r\n")
+		}
+		if q.Origin {
+			b.WriteString("Origin: http://elsewhere.example\r\n")
+		}
+		fmt.Fprintf(&b, "X-Verif-Status: %d\r\n", q.HStatus)
+		if q.Exec {
+			b.WriteString("X-Verif-Exec: 1\r\n")
+		} else {
+			b.WriteString("X-Verif-Hijack: 1\r\n")
+		}
+		b.WriteString("\r\n")
+		if _, err := conn.Write([]byte(b.String())); err != nil {
+			o.Panic = "write: " + err.Error()
+			return
+		}
+		resp, err := http.ReadResponse(bufio.NewReader(conn), nil)
+		if err != nil {
+			o.Panic = "read: " + err.Error()
+			return
+		}
+		o.Status = resp.StatusCode
+		o.WWW = resp.Header.Get("WWW-Authenticate") != ""
+		o.Gzip = resp.Header.Get("Content-Encoding") == "gzip"
+		o.Cors = resp.Header.Get("Access-Control-Allow-Origin") != ""
+		resp.Body.Close()
+	}()
+	srv.Close() // waits for the outstanding request
+	curMu.Lock()
+	o.Ran, o.Backend, o.Hijacked = cur.ran, backendCalls, cur.hijacked
+	cur = nil
+	curMu.Unlock()
 	return o
 }
 
